@@ -26,6 +26,7 @@ import (
 	"hash/fnv"
 	"os"
 	"path/filepath"
+	"regexp"
 	"runtime/debug"
 	"sort"
 	"strconv"
@@ -52,15 +53,52 @@ func Failf(format string, args ...interface{}) *Violation {
 func Guard(what string, f func()) (v *Violation) {
 	defer func() {
 		if rec := recover(); rec != nil {
-			st := string(debug.Stack())
-			if len(st) > 3000 {
-				st = st[:3000]
-			}
-			v = Failf("PANIC in %s: %v\n%s", what, rec, st)
+			v = Failf("PANIC in %s: %v\n%s", what, rec, shortStack())
 		}
 	}()
 	f()
 	return nil
+}
+
+// shortStack returns the frames between the panic and the harness, without the runtime preamble.
+func shortStack() string {
+	lines := strings.Split(string(debug.Stack()), "\n")
+	var out []string
+	seenPanic := false
+	for i := 0; i+1 < len(lines); i++ {
+		l := lines[i]
+		if strings.HasPrefix(l, "panic(") {
+			seenPanic = true
+			out = out[:0]
+			i++
+			continue
+		}
+		if !seenPanic || strings.HasPrefix(l, "goroutine ") {
+			continue
+		}
+		if strings.HasPrefix(l, "verif/harness/kit.") || strings.HasPrefix(l, "pgregory.net/rapid.") || strings.HasPrefix(l, "testing.") {
+			break
+		}
+		out = append(out, l)
+		if len(out) >= 16 {
+			break
+		}
+	}
+	return normStack(strings.Join(out, "\n"))
+}
+
+var (
+	reArgs = regexp.MustCompile(`\((?:0x[0-9a-f]+\??|\{[^)]*\}|[^()]*0x[0-9a-f]+[^()]*)\)`)
+	reOff  = regexp.MustCompile(` \+0x[0-9a-f]+`)
+	reGo   = regexp.MustCompile(`goroutine \d+`)
+)
+
+// normStack removes addresses, pc offsets and goroutine ids: rapid only shrinks a failure whose message is
+// identical when the case is run again.
+func normStack(st string) string {
+	st = reArgs.ReplaceAllString(st, "(...)")
+	st = reOff.ReplaceAllString(st, "")
+	return reGo.ReplaceAllString(st, "goroutine N")
 }
 
 // Prop is one generated check of a property.
@@ -284,11 +322,7 @@ func (p Prop[C]) replay(raw json.RawMessage) *Violation {
 func (p Prop[C]) safeCheck(c C) (v *Violation) {
 	defer func() {
 		if rec := recover(); rec != nil {
-			st := string(debug.Stack())
-			if len(st) > 4000 {
-				st = st[:4000]
-			}
-			v = Failf("PANIC escaped the check: %v\n%s", rec, st)
+			v = Failf("PANIC escaped the check: %v\n%s", rec, shortStack())
 		}
 	}()
 	return p.Check(c)
